@@ -13,7 +13,7 @@ from fractions import Fraction
 import z3
 
 from . import values as V
-from .values import Seq, SetV, DictV, Obj, Func, Module, RangeV, OutOfSubset, Opaque, is_z3
+from .values import Seq, SetV, DictV, Obj, ObjSeq, Func, Module, RangeV, OutOfSubset, Opaque, is_z3
 
 
 class PathEnd(Exception):
@@ -141,6 +141,8 @@ class Sym:
             return Seq(v.kind, None, ln, self.array(name, z3.IntSort(), v.arr.sort().range()))
         if isinstance(v, SetV):
             return SetV(self.array(name, v.arr.sort().domain(), z3.BoolSort()))
+        if isinstance(v, ObjSeq):
+            return ObjSeq(v.cls, v.length, {f: self.array("%s.%s" % (name, f), z3.IntSort(), a.sort().range()) for f, a in v.fields.items()})
         if isinstance(v, DictV):
             return DictV(self.array(name + ".dom", v.dom.sort().domain(), z3.BoolSort()),
                          self.array(name + ".val", v.val.sort().domain(), v.val.sort().range()))
@@ -368,7 +370,7 @@ class Executor:
             g = z3.simplify(goal)
             if z3.is_true(g):
                 return
-        self.oblige("safety/%s@L%d" % (what, node.lineno - self.fn.lineno), goal, node, "safety")
+        self.oblige("safety/%s@%sL%d" % (what, getattr(self, "inl", ""), node.lineno - self.fn.lineno), goal, node, "safety")
 
     # ------------------------------------------------------------------ statements
     def exec_block(self, stmts, env):
@@ -439,7 +441,7 @@ class Executor:
     def s_Assert(self, st, env):
         c = self.truth(self.eval(st.test, env))
         if getattr(self.contract, "must_hold_asserts", False):
-            self.oblige("assert@L%d" % (st.lineno - self.fn.lineno), c, st, "assert")
+            self.oblige("assert@%sL%d" % (getattr(self, "inl", ""), st.lineno - self.fn.lineno), c, st, "assert")
         else:
             self.assumed.append("assert at L%d assumed (partial correctness: a failing assert raises)" % st.lineno)
             if not self.decide(c):
@@ -525,6 +527,10 @@ class Executor:
             mode = "seq"
             itseq = it if not it.concrete else it.to_symbolic()
             lo, hi = 0, itseq.len()
+        elif isinstance(it, ObjSeq):
+            mode = "seq"
+            itseq = it
+            lo, hi = 0, it.len()
         elif isinstance(it, SetV):
             mode = "set"
         else:
@@ -559,6 +565,10 @@ class Executor:
                     self.assume(cl.expr, "%s/inv#%s" % (tag, cl.name))
                 if mode == "range":
                     self.assign(st.target, k, env)
+                elif isinstance(itseq, ObjSeq):
+                    view = Obj(itseq.cls, {f: z3.Select(a, k) for f, a in itseq.fields.items()})
+                    view.origin = (itseq, k)
+                    self.assign(st.target, view, env)
                 else:
                     self.assign(st.target, self.seq_get(itseq, k, st), env)
             elif mode == "set":
@@ -661,6 +671,12 @@ class Executor:
             if not isinstance(o, Obj):
                 raise OutOfSubset("attribute store on %r" % (o,), t)
             o.fields[t.attr] = val
+            if hasattr(o, "origin"):
+                oseq, oi = o.origin
+                if t.attr not in oseq.fields:
+                    raise OutOfSubset("store to undeclared field %s of a list element" % t.attr, t)
+                rs = oseq.fields[t.attr].sort().range()
+                oseq.fields[t.attr] = z3.Store(oseq.fields[t.attr], oi, V.to_z3(V.bool_to_int(val), rs == z3.RealSort()))
         elif isinstance(t, ast.Subscript):
             base = self.eval(t.value, env)
             if isinstance(base, Seq):
@@ -1076,6 +1092,14 @@ class Executor:
         idx = self.eval(e.slice, env)
         if isinstance(base, Seq):
             return self.seq_get(base, idx, e)
+        if isinstance(base, ObjSeq):
+            if isinstance(idx, int) and idx < 0:
+                idx = V.to_z3(base.length) + idx
+            iz = V.to_z3(idx)
+            self.safety("index", z3.And(iz >= 0, iz < V.to_z3(base.length)), e)
+            view = Obj(base.cls, {f: z3.Select(a, iz) for f, a in base.fields.items()})
+            view.origin = (base, iz)
+            return view
         if isinstance(base, DictV):
             key = self.as_key(idx, base.dom.sort().domain())
             self.safety("key", z3.Select(base.dom, key), e)
@@ -1231,6 +1255,8 @@ class Executor:
         if depth > 6:
             raise OutOfSubset("inline depth", node)
         self._inline_depth = depth + 1
+        saved_inl = getattr(self, "inl", "")
+        self.fn, self.inl = fn, saved_inl + fn.name + ":"
         try:
             self.exec_block(fn.body, sub)
             return None
@@ -1238,6 +1264,7 @@ class Executor:
             return r.value
         finally:
             self._inline_depth = depth
+            self.fn, self.inl = saved_fn, saved_inl
 
     def construct(self, cls, args, kwargs, node):
         c = self.book.lookup(cls, "__init__")
